@@ -334,6 +334,15 @@ func c16FIFO(e *Env, acq, rel, can *ssa.Function) {
 				if !isCall {
 					return
 				}
+				// slices.Delete(list, i, i+1): the standard library's order-preserving cut of one element
+				if strings.HasSuffix(core.CalleeName(ap), "slices.Delete") && len(ap.Call.Args) == 3 && isFieldLoadNamed(ap.Call.Args[0], "orderedRequest") {
+					if add, isAdd := ap.Call.Args[2].(*ssa.BinOp); isAdd && add.Op == token.ADD && add.X == ap.Call.Args[1] {
+						if k, isK := core.ConstInt(add.Y); isK && k == 1 {
+							ok = true
+						}
+					}
+					return
+				}
 				b, isB := ap.Call.Value.(*ssa.Builtin)
 				if !isB || b.Name() != "append" || len(ap.Call.Args) != 2 {
 					return
@@ -395,6 +404,12 @@ func c16Cancel(e *Env, acq, can *ssa.Function) {
 		cmpFound := false
 		for _, g := range core.WithAnon(can) {
 			core.Instrs(g, func(in ssa.Instruction) {
+				if c, isC := in.(*ssa.Call); isC && strings.HasSuffix(core.CalleeName(c), "slices.Index") && len(c.Call.Args) == 2 {
+					// slices.Index(list, own): linear search by ==
+					if isFieldLoadNamed(c.Call.Args[0], "orderedRequest") && core.Resolve(c.Call.Args[1]) == ssa.Value(own) {
+						cmpFound = true
+					}
+				}
 				b, ok := in.(*ssa.BinOp)
 				if !ok || b.Op != token.EQL {
 					return
